@@ -16,6 +16,7 @@ import (
 	"runtime/debug"
 	"strings"
 	"sync"
+	"sync/atomic"
 	"syscall"
 	"time"
 
@@ -64,6 +65,7 @@ type Res struct {
 	Alloc   uint64   `json:"alloc"`         // TotalAlloc delta around the call
 	Sys     uint64   `json:"sys"`           // MemStats.Sys after the call
 	Crash   string   `json:"crash,omitempty"`
+	Suspended int    `json:"-"`
 	Stderr  string   `json:"stderr,omitempty"`
 }
 
@@ -118,7 +120,9 @@ func newMachine(full bool) *machine {
 		return c.Next(), nil
 	}, 1, false)
 	rt.SolemnlyDeclareCompliance(rt.ComplyCpuSafe|rt.ComplyMemSafe|rt.ComplyIoSafe|rt.ComplyTimeSafe, caught, keep)
-	installDetCoroutine(r)
+	if os.Getenv("C06_SHIM") != "" {
+		installDetCoroutine(r)
+	}
 	return m
 }
 
@@ -280,15 +284,27 @@ func runEpilogue(m *machine) (string, uint64) {
 	return "", o.UsedMem
 }
 
-// execJob runs a job in this process.
+// callStartAlloc is MemStats.TotalAlloc when the measured call started (0 =
+// no measured call is running); read by the child's watchdog.
+var callStartAlloc atomic.Uint64
+
+// execJob runs a job in this process on a fresh runtime.
 func execJob(j *Job) (res Res) {
 	m := newMachine(j.Full)
+	res = runOn(m, j)
+	m.Close()
+	return
+}
+
+// runOn runs a job on the given machine (which the caller closes).
+func runOn(m *machine, j *Job) (res Res) {
 	defer func() {
 		if p := recover(); p != nil {
 			res.Status = "gopanic"
 			res.Err = "outside the call: " + firstLine(fmt.Sprint(p))
 		}
 	}()
+	m.Trace, m.Ticks, m.markers = nil, 0, nil
 	if j.Pro != "" {
 		o := m.Exec("pro", j.Pro, nil, nil)
 		if o.Status != "ok" {
@@ -321,8 +337,10 @@ func execJob(j *Job) (res Res) {
 	var ms0, ms1 runtime.MemStats
 	if j.Measure {
 		runtime.ReadMemStats(&ms0)
+		callStartAlloc.Store(ms0.TotalAlloc)
 	}
 	o := m.Call(rt.FunctionValue(clos), args, def)
+	callStartAlloc.Store(0)
 	if j.Measure {
 		runtime.ReadMemStats(&ms1)
 		res.Alloc = ms1.TotalAlloc - ms0.TotalAlloc
@@ -336,6 +354,7 @@ func execJob(j *Job) (res Res) {
 	if hl, u := m.R.HardLimits(), m.R.UsedResources(); hl.Memory != 0 || u.Memory != 0 {
 		res.Ctx = fmt.Sprintf("after the call returned to the host the current context is not the root context: kill.memory=%d used.memory=%d", hl.Memory, u.Memory)
 	}
+	res.Suspended = len(m.kept)
 	m.closeKept()
 	if j.Epi {
 		var used uint64
@@ -344,7 +363,6 @@ func execJob(j *Job) (res Res) {
 			res.Epi = fmt.Sprintf("epilogue accounted %d bytes, %d in a pristine runtime", used, epiUsed)
 		}
 	}
-	m.Close()
 	return
 }
 
@@ -389,13 +407,17 @@ func subMain() {
 			}
 			var wd *time.Timer
 			if j.WatchMs > 0 {
-				var ms0 runtime.MemStats
-				runtime.ReadMemStats(&ms0)
 				wd = time.AfterFunc(time.Duration(j.WatchMs)*time.Millisecond, func() {
-					// The call is still running: report how much was allocated so far.
+					// Still running: report how much the measured call allocated so far
+					// (nothing if it has not even started: building the input took too long).
 					var ms1 runtime.MemStats
 					runtime.ReadMemStats(&ms1)
-					enc.Encode(Res{Status: "timeout", Alloc: ms1.TotalAlloc - ms0.TotalAlloc, Sys: ms1.Sys})
+					r := Res{Status: "timeout", Sys: ms1.Sys, Err: "measured call not started"}
+					if a := callStartAlloc.Load(); a != 0 {
+						r.Alloc = ms1.TotalAlloc - a
+						r.Err = "measured call still running"
+					}
+					enc.Encode(r)
 					out.Flush()
 					os.Exit(0)
 				})
